@@ -34,7 +34,7 @@ class C09(Check):
         case = {"hashvars": [[rng.choice(FMTS + ["x"]), None, None] for _ in range(rng.randint(0, 4))],
                 "key": members(1, 3), "value": members(1, 3), "entries": [], "ops": [], "size": rng.choice([2, 4, 31])}
         for hv in case["hashvars"]:
-            hv[1] = rng.choice([0.29, 2.5, 0]) if hv[0] == "x" else rv(rng, hv[0])        # declared default
+            hv[1] = rng.choice([0.29, 2.5, 0]) if hv[0] == "x" else rv(rng, hv[0])        # declared default (rand_value favours the ends of the range)
             hv[2] = None if rng.random() < 0.4 else (rng.choice([1.15, 0.57, 7.0]) if hv[0] == "x" else rv(rng, hv[0]))   # written from Python
         keys = [[rv(rng, f) for f in case["key"]] for _ in range(3)]
         for k in keys[:rng.randint(0, 2)]:
@@ -43,10 +43,15 @@ class C09(Check):
             r = rng.random()
             if r < 0.25 and case["hashvars"]:
                 case["ops"].append(["hread", rng.randrange(len(case["hashvars"]))])
-            elif r < 0.45 and case["hashvars"]:
+            elif r < 0.35 and case["hashvars"]:
                 i = rng.randrange(len(case["hashvars"]))
                 f = case["hashvars"][i][0]
                 case["ops"].append(["hwrite", i, rng.choice([0.29, 3.5]) if f == "x" else rv(rng, f)])
+            elif r < 0.5 and case["hashvars"]:
+                # arithmetic on the variable itself: the result may leave the format's range (the cell has 64 bits)
+                i = rng.randrange(len(case["hashvars"]))
+                if case["hashvars"][i][0] != "x":
+                    case["ops"].append(["hinc", i, rng.choice([1, 10, -10, 255, 65536, -1])])
             elif r < 0.75:
                 j = rng.randrange(len(case["value"]))
                 case["ops"].append(["dlookup", rng.choice(keys), j, rng.choice(["read", "write"]), rv(rng, case["value"][j])])
@@ -123,6 +128,8 @@ class C09(Check):
                     setattr(e, f"mir{j}", getattr(e, f"h{op[1]}"))
                 elif op[0] == "hwrite":
                     setattr(e, f"h{op[1]}", op[2])
+                elif op[0] == "hinc":
+                    setattr(e, f"h{op[1]}", getattr(e, f"h{op[1]}") + op[2])
                 elif op[0] == "dlookup":
                     for i, kv in enumerate(op[1]):
                         setattr(e.table.key, f"k{i}", kv)
@@ -244,6 +251,8 @@ class C09(Check):
                     return f"the program read h{op[1]}:{f} = {got}, Python had stored {hv[op[1]]}" + what
             elif op[0] == "hwrite":
                 hv[op[1]] = op[2]
+            elif op[0] == "hinc":
+                hv[op[1]] = wrap(case["hashvars"][op[1]][0], hv[op[1]] + op[2])     # both sides see the variable in its declared format
             elif op[0] == "dlookup":
                 key = str(list(op[1]))
                 present = key in table
@@ -282,7 +291,7 @@ class C09(Check):
                 "key and read or modify a member (Else branch marks absence), update (insert / overwrite / full); afterwards Python reads everything back")
 
     def distribution(self, cases, observed):
-        d = {"hread": 0, "hwrite": 0, "dlookup": 0, "dupdate": 0, "errors": 0}
+        d = {"hread": 0, "hwrite": 0, "hinc": 0, "dlookup": 0, "dupdate": 0, "errors": 0}
         for c, o in zip(cases, observed):
             d["errors"] += isinstance(o, Err)
             for op in c["ops"]:
